@@ -14,7 +14,7 @@ Added probe families (s1):
     `align` flag (defs.hoist), so aligned structures with tail padding sit inside packed ones at offsets that are not
     multiples of their alignment, followed by more data, and vice versa; the round-trip predicate is evaluated on the real
     code (s1_mixed).  Inputs on which an aligned structure's tail alignment runs past its declared size are a pending
-    finding (see PENDING-FINDING below) and are not evaluated.
+    finding are classified by its signature (F43, F44).
 """
 from __future__ import annotations
 
